@@ -111,8 +111,8 @@ func theRegistry() *registry {
 	}
 	l, _ := res.(slip.List)
 	for _, e := range l {
-		if s, ok := e.(slip.Symbol); ok {
-			reg.names = append(reg.names, strings.ToLower(string(s)))
+		if s, ok := e.(slip.Symbol); ok && !strings.HasPrefix(strings.ToLower(string(s)), "c16u") {
+			reg.names = append(reg.names, strings.ToLower(string(s))) // (classes of the "user" cases are judged there)
 		}
 	}
 	sort.Strings(reg.names)
@@ -284,46 +284,60 @@ func execType(x *fw.Ctx, c Case) {
 
 	// coerce
 	for _, target := range coerceTargets {
-		scope.Let(symTy, slip.Symbol(target))
-		res, err := sl.Eval(scope, "(coerce x ty)")
-		if err != nil {
-			if err.Internal {
-				x.Fail(fmt.Sprintf("coerce fail=internal target=%s from=%s", target, kind), "(coerce %s '%s) => %s", src, target, fmtErr(err))
-			} else {
-				x.Cover("coerce:refused")
-			}
-			continue
-		}
-		x.Cover("coerce:returned")
-		x.Cover("coerce-to:" + target)
-		rs := slip.NewScope()
-		rs.Let(symX, res)
-		got := sl.Kind(res)
-		okKind := true
-		if allowed := allowedKinds[target]; allowed != nil {
-			okKind = false
-			for _, a := range allowed {
-				if a == got {
-					okKind = true
-				}
-			}
-		}
-		typepSays := true
-		if !notTypeNames[target] && !(got == "null" && okKind) { // what typep says about nil is judged on its own (typep-nil)
-			v, e := typepOf(rs, target)
-			typepSays = e == nil && v
-		}
-		switch {
-		case !typepSays:
-			x.Fail(fmt.Sprintf("coerce-typep target=%s got=%s", target, got), "(coerce %s '%s) => %s, a %s, which is not typep %s", src, target, sl.Show(res), got, target)
-		case !okKind:
-			x.Fail(fmt.Sprintf("coerce-kind target=%s got=%s", target, got), "(coerce %s '%s) => %s, whose representation is %s", src, target, sl.Show(res), got)
-		}
-		if target == "t" && h.o.K != "opq" && !matches(res, describe(h.o)) {
-			x.Fail("coerce-t fail=changed", "(coerce %s 't) => %s", src, sl.Show(res))
-		}
+		judgeCoerce(x, scope, h, src, kind, target)
 	}
 	x.Observe(map[string]any{"object": src, "type-of": tof, "kind": kind})
+}
+
+// judgeCoerce runs (coerce x target) on the real code (x is bound in scope)
+// and judges the type of what comes back: by the real typep and by the
+// representation class the harness sees. It reports whether coerce returned
+// and, if not, the condition.
+func judgeCoerce(x *fw.Ctx, scope *slip.Scope, h *hv, src, kind, target string) (bool, *sl.Err) {
+	scope.Let(symTy, slip.Symbol(target))
+	res, err := sl.Eval(scope, "(coerce x ty)")
+	if err != nil {
+		if err.Internal {
+			x.Fail(fmt.Sprintf("coerce fail=internal target=%s from=%s", target, kind), "(coerce %s '%s) => %s", src, target, fmtErr(err))
+		} else {
+			x.Cover("coerce:refused")
+		}
+		return false, err
+	}
+	x.Cover("coerce:returned")
+	x.Cover("coerce-to:" + target)
+	rs := slip.NewScope()
+	rs.Let(symX, res)
+	got := sl.Kind(res)
+	okKind := true
+	if allowed := allowedKinds[target]; allowed != nil {
+		okKind = false
+		for _, a := range allowed {
+			if a == got {
+				okKind = true
+			}
+		}
+	}
+	typepSays := true
+	if !notTypeNames[target] && !(got == "null" && okKind) { // what typep says about nil is judged on its own (typep-nil)
+		v, e := typepOf(rs, target)
+		typepSays = e == nil && v
+	}
+	switch {
+	case !typepSays:
+		x.Fail(fmt.Sprintf("coerce-typep target=%s got=%s", target, got), "(coerce %s '%s) => %s, a %s, which is not typep %s", src, target, sl.Show(res), got, target)
+	case !okKind:
+		x.Fail(fmt.Sprintf("coerce-kind target=%s got=%s", target, got), "(coerce %s '%s) => %s, whose representation is %s", src, target, sl.Show(res), got)
+	}
+	if target == "t" {
+		if h.o.K != "opq" && !matches(res, describe(h.o)) {
+			x.Fail("coerce-t fail=changed", "(coerce %s 't) => %s", src, sl.Show(res))
+		}
+		if h.o.K == "opq" && reflectComparable(h.obj) && !identical(res, h.obj) {
+			x.Fail("coerce-t fail=changed", "(coerce %s 't) => %s, not the object itself", src, sl.Show(res))
+		}
+	}
+	return true, nil
 }
 
 func execSub(x *fw.Ctx, c Case) {
@@ -347,6 +361,7 @@ func execSub(x *fw.Ctx, c Case) {
 		rows++
 		a := r.names[i]
 		x.Cover("subtypep-row")
+		x.CoverN("subtypep-triples-examined", len(r.names)*len(r.names))
 		for j := range r.names {
 			x.Cover("observed:subtypep")
 			if r.sub[i][j] < 0 {
